@@ -14,7 +14,7 @@ PROPS = {
         "not_covered": ["element-level traits' from_derive_input etc. are covered under C08/C16", "L2 with_inherited/as_codegen_field are exercised only through the emitted code, not separately contracted"],
     },
     "C02": {
-        "units": ["l1_error_api", "c05_accumulator", "c16_body_conversion", "c14_maps"],
+        "units": ["l1_error_api", "c05_accumulator", "c16_body_conversion", "c14_maps", "c17_sibling_alts"],
         "gen": [{"corpus": "structs", "mode": "err", "unit_span": True}, {"corpus": "enums", "mode": "full", "unit_span": True}, {"corpus": "elems", "mode": "full", "unit_span": True}],
         "classes": r"postcondition|invariant|post-condition of closure",
         "level_text": "Same emitted functions proved equal to the full oracle: Err(e_multiple(mistakes)) with one error per unknown name, repeat, literal item, "
@@ -35,7 +35,7 @@ PROPS = {
         "not_covered": ["From<Error> for syn::Error (explicit span else call site + path in the message)", "SpannedValue/Flag/PathList spans are under C12/C13"],
     },
     "C08": {
-        "units": [],
+        "units": ["c08_parse_attribute"],
         "gen": [{"corpus": "elems", "mode": "full"}],
         "classes": r"postcondition|invariant|post-condition of closure",
         "level_text": "For each element-level receiver of the corpus the from_derive_input / from_field / from_attributes emitted by the working tree's derive is proved (Verus, all attribute lists) equal to a "
@@ -75,10 +75,11 @@ PROPS = {
         "not_covered": ["container-level from_word / from_none options", "L2 InputVariant::with_inherited separately contracted (exercised through emitted code only)"],
     },
     "C17": {
-        "units": [],
+        "units": ["c17_sibling_alts"],
         "gen": [{"corpus": "structs", "mode": "full"}, {"corpus": "enums", "mode": "full"}, {"corpus": "elems", "mode": "full"}],
         "classes": r"assertion failed|post-condition of closure",
         "include_text": r"strs\(__alts@\)|e_sibling_alts",
+        "classes_text": r"(postcondition|invariant|termination).* :: .*(e_sib|sib_upto|add_sibling_alts)",
         "level_text": "In every emitted parser of the corpus the literal candidate list passed to unknown_field_with_alts is proved equal to the names addressable at that position "
                       "(non-skip, non-flatten fields; non-skipped variants), and the names passed to add_sibling_alts_for_unknown_field on a flatten result are the parent's addressable names; "
                       "suggestions are attached only by those two calls (oracle equality under C02/C03).",
@@ -187,6 +188,7 @@ PROPS = {
         "not_covered": ["IdentString, AtomicBool", "SpannedValue/WithOriginal impls of the other From* traits", "Override<T> helper methods (as_ref, unwrap_or, ..)", "two-level compositions beyond Box<Option<_>>"],
     },
     "C10": {
+        "exclude_text": r"__live|__armed",
         "units": ["c10_field_options", "c10_variant_core_options", "c10_receivers", "c10_shape_words", "c06_middleware", "c06_parse_attr", "l2_options_api"],
         "classes": r"postcondition|invariant|assertion failed|post-condition of closure",
         "level_text": "Every derive-time option parser of core/src/options (InputField/InputVariant/Core/FromMetaOptions/OuterFrom::parse_nested, from_field/from_variant, Core::start, "
@@ -292,7 +294,7 @@ PROPS = {
     "C07": {
         "ignore_tags": True,
         "classes_text": r"assertion failed :: .*(__live|__armed)",
-        "units": ["c11_ints", "c11_nonzero", "c11_misc", "c13_syn_values", "c12_wrappers", "c15_routing", "c18_shape", "c16_body_conversion", "c16_generics", "c14_maps", "c14_key_ident"],
+        "units": ["c11_ints", "c11_nonzero", "c11_misc", "c13_syn_values", "c12_wrappers", "c15_routing", "c18_shape", "c16_body_conversion", "c16_generics", "c14_maps", "c14_key_ident", "c08_parse_attribute"],
         "gen": [{"corpus": "structs", "mode": "full"}, {"corpus": "enums", "mode": "full"}, {"corpus": "elems", "mode": "full"}, {"corpus": "supports", "mode": "full"}],
         "classes": r"precondition not satisfied|overflow|underflow|division by zero|index out of|unreachable|panic",
         "level_text": "Every expect()/unwrap/index/arithmetic site and every accumulator-armed precondition in the emitted parsers is a proved Verus precondition for all inputs "
